@@ -2446,7 +2446,7 @@ int32 tls13WriteClientHello(ssl_t *ssl, sslBuf_t *out,
     psDynBuf_t ciphersBuf;
     psSize_t cipherSuitesLen;
     unsigned char *cipherSuites;
-    psSize_t messageSize;
+    uint32 messageSize;
 
     sslInitHSHash(ssl);
 
@@ -2613,7 +2613,13 @@ int32 tls13WriteClientHello(ssl_t *ssl, sslBuf_t *out,
         return PS_MEM_FAIL;
     }
 
-    messageSize = ssl->recordHeadLen + ssl->hshakeHeadLen + dataLen;
+    /* makeHsRecord() cuts a message that is longer than maxPtFrag into
+       several records, each with a header of its own: count them all, or
+       the caller, who re-allocates to exactly this size and tries again,
+       never gets a buffer that is large enough. */
+    messageSize = (uint32) ssl->hshakeHeadLen + dataLen;
+    messageSize += ssl->recordHeadLen *
+        ((messageSize + ssl->maxPtFrag - 1) / ssl->maxPtFrag);
     if (messageSize > SSL_MAX_BUF_SIZE)
     {
         psTraceIntInfo("ClientHello message too large: %d\n",
